@@ -894,7 +894,16 @@ where
 
                 // If count is zero, jump to visitor
                 match count {
-                    0 => visitor.visit_seq(ArrayAccess::new(self, len, count)),
+                    0 => {
+                        // An empty array may still carry its element constructor: the
+                        // size says how many bytes follow the count, they belong to
+                        // the array and not to the next value
+                        let rest = len.checked_sub(1).ok_or(Error::InvalidLength)?;
+                        if rest > 0 {
+                            let _ = self.reader.read_bytes(rest)?;
+                        }
+                        visitor.visit_seq(ArrayAccess::new(self, 0, count))
+                    }
                     _ => {
                         let format_code = self
                             .read_format_code()
@@ -925,7 +934,15 @@ where
 
                 // If count is zero, jump to visitor
                 match count {
-                    0 => visitor.visit_seq(ArrayAccess::new(self, len, count)),
+                    0 => {
+                        // See the `Array8` arm: an element constructor after the count
+                        // of an empty array is part of the array
+                        let rest = len.checked_sub(4).ok_or(Error::InvalidLength)?;
+                        if rest > 0 {
+                            let _ = self.reader.read_bytes(rest)?;
+                        }
+                        visitor.visit_seq(ArrayAccess::new(self, 0, count))
+                    }
                     _ => {
                         let format_code = self
                             .read_format_code()
